@@ -111,8 +111,17 @@ static std::string check_clauses(const Tris &t, const CornerTable &ct) {
 struct Stats { long corr = 0, search = 0, with_nm_vertex = 0, with_degenerate = 0, with_links = 0, with_unlinked_nondeg = 0; };
 static Stats st;
 
+// watchdog: a construction / fan walk that does not terminate is reported with the list that caused it
+#include <signal.h>
+#include <unistd.h>
+static const Tris *g_current_list = nullptr; static Out *g_out = nullptr;
+static void on_alarm(int) {
+  if (g_out && g_out->f) { fprintf(g_out->f, "! corner table construction or fan walk did not terminate (10 s): %s\n", (g_current_list ? lhs_of(*g_current_list) : std::string("?")).c_str()); fflush(g_out->f); }
+  _exit(0);   // the '!' line is the result; the remaining lists are not explored in this run
+}
 // run one list: always search; correspondence line only if [corr]
 static void one(Out &o, const Tris &t, bool corr) {
+  g_out = &o; g_current_list = &t; if ((st.search & 1023) == 0) { signal(SIGALRM, on_alarm); alarm(10); }
   std::unique_ptr<CornerTable> ct = build(t);
   st.search++;
   if (!ct) { o.fail("Create returned null: " + lhs_of(t)); return; }
